@@ -84,6 +84,9 @@ type c16Cfg struct {
 	AtoInf  bool
 	Chunked bool
 	GenSubs string // "", stpp, wvtt, both
+	// StatusCode: the URL carries a statuscode_ pattern: livesim2 itself answers the scheduled segments with an error
+	// code, so there is no body "as served" for them; gaps are not judged for such a session (everything else is)
+	StatusCode bool
 }
 
 func c16ParseParts(parts []string) c16Cfg {
@@ -119,6 +122,8 @@ func c16ParseParts(parts []string) c16Cfg {
 			stpp = true
 		case "timesubswvtt":
 			wvtt = true
+		case "statuscode":
+			c.StatusCode = true
 		}
 	}
 	switch {
@@ -303,6 +308,9 @@ func c16GenParts(rng *core.Rng, a *refmodel.Asset, nowMS int64, realtime bool, k
 	if rng.Chance(0.08) {
 		parts = append(parts, fmt.Sprintf("scte35_%d", core.Pick(rng, []int{1, 2, 3})))
 	}
+	if kind == "statuscode" {
+		parts = append(parts, fmt.Sprintf("statuscode_[{cycle:%d,rsq:%d,code:%d}]", core.Pick(rng, []int{4, 10, 30}), rng.Intn(2), core.Pick(rng, []int{404, 410, 503})))
+	}
 	return parts
 }
 
@@ -332,8 +340,10 @@ func (C16) Gen(rng *core.Rng, tier string, idx int) *core.Scenario {
 		w.Kind = "mixed"
 	case x < 70:
 		w.Kind = "near-start" // the session starts within the first three segments of the stream
-	case x < 91:
+	case x < 88:
 		w.Kind, w.Isolate = "chunked", true
+	case x < 91:
+		w.Kind, w.Isolate = "statuscode", true // URL with a statuscode_ pattern: known to be able to kill the process
 	case x < 94:
 		w.Kind, w.Isolate = "timeline-subs", true
 	case x < 98:
@@ -342,7 +352,7 @@ func (C16) Gen(rng *core.Rng, tier string, idx int) *core.Scenario {
 		w.Kind, w.Isolate = "snr-near-start", true
 	}
 	crashKind := w.Kind
-	small := w.Kind == "timeline-subs" || w.Kind == "chunked-subs" || w.Kind == "snr-near-start" || w.Kind == "near-start"
+	small := w.Kind == "timeline-subs" || w.Kind == "chunked-subs" || w.Kind == "snr-near-start" || w.Kind == "near-start" || w.Kind == "statuscode"
 	// where on the time axis the bubble works: at the bubble epoch, a bit later, or far later
 	switch rng.Intn(4) {
 	case 0:
